@@ -26,6 +26,7 @@ pub mod units;
 pub mod c13;
 mod c14;
 mod c15;
+mod c16;
 pub mod c17;
 mod c20;
 
@@ -81,6 +82,7 @@ fn main() {
         "c13" => (c13::gen, c13::exec),
         "c14" => (c14::gen, c14::exec),
         "c15" => (c15::gen, c15::exec),
+        "c16" => (c16::gen, c16::exec),
         "c17" => (c17::gen, c17::exec),
         "c20" => (c20::gen, c20::exec),
         _ => { eprintln!("unknown property {}", prop); std::process::exit(2); }
